@@ -219,6 +219,7 @@ type WEval struct {
 	parentEval *WEval                      // for a function literal: the evaluator of the function that creates it
 	argLay     map[ssa.Value]*Lay          // byte-slice parameters of an evaluated callee: the caller's layout of the argument
 	pathBlocks map[*ssa.BasicBlock]bool    // evaluation along one enumerated path: the blocks on it (writes elsewhere did not happen)
+	curSub     map[ssa.Value]ssa.Value     // while the literals of one path are printed: helper parameter -> argument
 	callSite   *ssa.Call                   // the call whose callee is being evaluated (for facts that hold at the call)
 	fillAcc    map[*ssa.MakeSlice]*ssa.Phi // buffers filled at a running offset: the offset's loop phi (its exit value is the length filled)
 	splitPhi   *ssa.Phi                    // set when a merged value had to be printed inside a term (see evalFuncResult)
@@ -240,6 +241,9 @@ func (w *WEval) term(v ssa.Value) string {
 	case *ssa.Parameter:
 		if s, ok := w.args[x]; ok {
 			return s
+		}
+		if a, ok := w.curSub[x]; ok && a != v {
+			return w.term(a)
 		}
 		return x.Name()
 	case *ssa.Const:
@@ -1742,6 +1746,11 @@ func (w *WEval) selectOver(start, stop *ssa.BasicBlock, leaf func(*DPath) *Lay) 
 		// start block) is expanded into the conditions it stands for
 		conjs := [][]condLit{nil}
 		dead := false
+		// helpers read as part of the path: their parameters stand for the arguments they were called with
+		savedSub := w.curSub
+		if d.Env != nil {
+			w.curSub = d.Env.Sub
+		}
 		for _, pc := range d.Conds {
 			if pc.At != nil && isLoopHeader(pc.At.Block()) {
 				continue // loop continuation tests are part of the Loop item, not of the selection
@@ -1756,7 +1765,7 @@ func (w *WEval) selectOver(start, stop *ssa.BasicBlock, leaf func(*DPath) *Lay) 
 					continue
 				}
 			}
-			if ph, isPhi := pc.Cond.V.(*ssa.Phi); isPhi {
+			if ph, isPhi := pc.Cond.V.(*ssa.Phi); isPhi && ph.Parent() == w.fn {
 				if dnf, ok := w.expandBoolPhi(ph, pc.Truth, 0); ok {
 					var next [][]condLit
 					for _, cj := range conjs {
@@ -1772,6 +1781,7 @@ func (w *WEval) selectOver(start, stop *ssa.BasicBlock, leaf func(*DPath) *Lay) 
 				conjs[i] = append(conjs[i], condLit{Atom: w.atomString(pc.Cond), Truth: pc.Truth})
 			}
 		}
+		w.curSub = savedSub
 		if dead || len(conjs) == 0 {
 			continue
 		}
@@ -1853,6 +1863,21 @@ func (w *WEval) atomString(t *T) string {
 	s := t.String()
 	if t.V != nil {
 		s = w.term(t.V)
+		// a condition that is a function of the parameters alone (after helpers and write-once struct fields were
+		// read through) is spelt by its term: the names of a helper's own locals mean nothing outside it
+		if t.K != "call" && !hasKind(t, "call") && !hasKind(t, "phi") && w.depth == 0 {
+			bt := map[string]*T{}
+			baseTerms(t, bt)
+			onlyParams := len(bt) > 0
+			for _, b := range bt {
+				if b.K != "param" {
+					onlyParams = false
+				}
+			}
+			if onlyParams {
+				s = callOrdinal.ReplaceAllString(t.String(), "")
+			}
+		}
 	}
 	if hasKind(t, "phi") {
 		// a test of a merged value: as a function of what decided the merge
